@@ -515,7 +515,7 @@ fn search_case(c: &Case, rep: &mut Report, pool: &mut Pool, rng: &mut Rng) {
         let mut sum_jobs = 0usize;
         let jobs = recompute_jobs(&params, &input, t);
         for (i, j) in jobs.iter().enumerate() {
-            if let Some(b) = &j.bytes { let pl = j.hi - j.lo; let slack = b.len() as i64 - (pl + 4 * (pl >> 14)) as i64; rep.count(&format!("slack.{}.{}", if i == 0 { if c.magic { "job0_magic" } else { "job0" } } else { "jobi" }, if slack < 0 { "neg".to_string() } else { format!("{:02}", slack) })); }
+            if let Some(b) = &j.bytes { let pl = j.hi - j.lo; let slack = b.len() as i64 - (pl + 4 * (pl >> 14)) as i64; rep.count(&format!("slack.{}.{}.{}", if c.q >= 2 { "q2p" } else { "q01" }, if i == 0 { if c.magic { "job0_magic" } else { "job0" } } else { "jobi" }, if slack < 0 { "neg".to_string() } else { format!("{:02}", slack) })); }
             if j.bytes.is_some() && !j.finished { rep.violation("multi:part-truncated", &format!("job {} reports Ok({}) for an unfinished stream (buffer of BrotliEncoderMaxCompressedSize({}) bytes too small)", i, j.bytes.as_ref().unwrap().len(), j.hi - j.lo), c.json("")); }
             if j.token == "err" || j.token == "spin" || j.token == "panic" { rep.count(&format!("job.{}", j.token)); }
             sum_jobs += j.bytes.as_ref().map(|b| b.len()).unwrap_or(0);
@@ -628,8 +628,14 @@ pub fn run_cmd(args: &Args) {
         kids.push((k, d.clone(), std::process::Command::new(&exe).args(["multi", "--tier", &args.tier, "--seed", &seed.to_string(), "--out", d.to_str().unwrap(), "shard", &k.to_string()]).spawn().unwrap()));
     }
     for (k, d, mut kid) in kids {
-        let ok = kid.wait().map(|st| st.success()).unwrap_or(false);
-        if let (Ok(o), Ok(i)) = (std::fs::read_to_string(d.join("ops.txt")), std::fs::read_to_string(d.join("impl.txt"))) { for (a, b) in o.lines().zip(i.lines()) { corr.case(a, b); } }
+        // the children have their own watchdogs; keep this process's one fed while waiting
+        let ok = loop { match kid.try_wait() { Ok(Some(st)) => break st.success(), Ok(None) => { beat(); std::thread::sleep(std::time::Duration::from_millis(100)); } Err(_) => break false } };
+        if let (Ok(o), Ok(i)) = (std::fs::read_to_string(d.join("ops.txt")), std::fs::read_to_string(d.join("impl.txt"))) {
+            // only complete lines (a shard stopped by its watchdog leaves unflushed tails)
+            let complete = |t: &str| -> usize { t.matches('\n').count() };
+            let n = complete(&o).min(complete(&i));
+            for (a, b) in o.lines().zip(i.lines()).take(n) { corr.case(a, b); }
+        }
         if let Ok(r) = std::fs::read_to_string(d.join("report.tsv")) { rep.merge_tsv(&r); }
         if !ok { rep.violation("multi:crash", "a shard of the multi engine crashed (abort / stack overflow inside the code under test?)", format!("{{\"shard\":{}}}", k)); }
         let _ = std::fs::remove_dir_all(&d);
